@@ -94,6 +94,13 @@ CLAIMS = {
          "sig x fetch x storage, random subsets, misspelt keys at four levels, invalid values) loaded in both syntaxes and provisioned for real.",
          "Coq proof over source-generated adapter tables + two-syntax load/provision correspondence", "DESIGN.md §3 C19",
          "'every valid combination provisions' is exercised by the harness (with C16/C15 covering the provisioning path), not stated as one theorem."),
+ "C15": ("Coq theorems over a discrete-time model of n validator instances whose skip rule (divisor) and stamp placement (per instance or "
+         "process-global) are regenerated from the source: C15_tick_liveness (for every interleaving of ticks and forced passes of any number "
+         "of instances, at each tick of instance i one of ITS passes finishes within (t - T/2, t + d]), C15_independent (the stamp an instance "
+         "reads is the finish time of one of its own passes); real tickers (150..900 ms, 1..3 instances with phase offsets, CDP and crl_urls, "
+         "fail-k-then-succeed) observed at the origin and compared with the model tick by tick.",
+         "Coq proof over the tick/stamp model + real-ticker correspondence", "DESIGN.md §3 C15",
+         "wall-clock time, time.Ticker and goroutine scheduling are runtime behaviour: the model is discrete-time, the harness allows 25% scheduling slack; 'configured CRLs are in force when provisioning returns' is exercised by the C16/C19 harnesses, not stated as a theorem."),
  "C03": ("Coq theorems C03_table/C03_enabled/C03_iff/C03_effects over a model whose mode table, enable predicates and "
          "VerifyClientCertificate stage list are regenerated from the Go source on every run; plus an exhaustive 1536-cell "
          "table of real handshakes evaluated against the model (vm_compute) and against the property's own wording.",
